@@ -269,16 +269,28 @@ def check(cx):
     tcis = RULES + "FilterToIndexScanRule::try_create_index_scan"
     eib = RULES + "FilterToIndexScanRule::extract_index_bounds"
     FIELD = {"Filter": "predicate", "Join": "condition"}
-    for g in sorted(applies, key=lambda x: x.id):
-        nm = local_names(g)
-        sinks = set()
+    def sinks_of(g):
+        out = set()
         for c in g.calls():
             ctor = c.callee.startswith(LOGICAL) and c.callee.endswith("::new") and not c.callee.endswith("LogicalExpr::new")
             if ctor or c.callee == tcis:
                 for a in c.args:
                     l = op_local(a)
                     if l is not None:
-                        sinks |= g.dep_closure(l)
+                        out |= g.dep_closure(l)
+        return out
+
+    for g in sorted(applies, key=lambda x: x.id):
+        g = p.fns.view(g.id)
+        nm = local_names(g)
+        sinks = sinks_of(g)
+        # reads made inside the closures of an iterator chain (`.filter_map(|ix| self.try_create_index_scan(scan, &filter.predicate, ix))`):
+        # the closure reads the field of a captured operator and hands it to the constructor itself
+        closure_reads = {}
+        for cg in K.family(p, g)[1:]:
+            cs = sinks_of(cg)
+            for f_, b_, d in sources(cg):
+                closure_reads.setdefault(f_, []).append(d in cs)
         # the operators the rule matched: `let LogicalOperator::Filter(x) = &e.op` binds x = &((*e).op as Filter).0
         matched = []
         for b in g.blocks:
@@ -294,6 +306,9 @@ def check(cx):
             key = "%s:matched-%s#%d.%s" % (rule_name(g), kind, ordinal[kind], FIELD[kind])
             reads = [d for f_, b_, d in srcs if f_ == FIELD[kind] and b_ == loc]
             good = bool(reads) and all(d in sinks for d in reads)
+            if not reads and closure_reads.get(FIELD[kind]) and sum(1 for k2, _ in matched if k2 == kind) == 1:
+                reads = closure_reads[FIELD[kind]]
+                good = all(reads)
             cx.verdict(good, r5, key, g.where(), "`%s.%s` flows into an emitted operator" % (nm.get(loc, "?"), FIELD[kind]),
                        "%s matches a %s (`%s`) but %s: the rewritten plan no longer evaluates that predicate" % (
                            rule_name(g), kind, nm.get(loc, "?"),
@@ -309,21 +324,44 @@ def check(cx):
             pred_in = any(3 in ft.dep_closure(op_local(a)) for a in ex[0].args if op_local(a) is not None)
             cx.verdict(pred_in, r5, "index-scan:predicate-in", ex[0].where(), "the filter predicate is what bounds are extracted from",
                        "extract_index_bounds is not given the filter predicate")
+            # builder methods of IndexScanOp that store a parameter into one of the three fields (`with_range(start, end)`)
+            setters = {}
+            for sg in p.fns.values():
+                if sg.impl_adt != LOGICAL + "IndexScanOp" or sg.kind != "assoc":
+                    continue
+                for b in sg.blocks:
+                    for s_ in b["stmts"]:
+                        for pe in s_["dst"][1:]:
+                            if isinstance(pe, str) and pe.split(":")[0] in (".range_start", ".range_end", ".residual_predicate") and isinstance(s_["rv"].get("o"), list):
+                                for o in s_["rv"]["o"]:
+                                    l = op_local(o)
+                                    if l is not None:
+                                        ps_ = [x[1] for x in sg.nearest_calls(l) if x[0] == "param"]
+                                        if len(ps_) == 1:
+                                            setters.setdefault(sg.id, {})[pe.split(":")[0][1:]] = ps_[0]
+            set_args = {}       # field -> operand handed to a setter
+            for c in ft.calls():
+                for fld_, pi in setters.get(c.callee, {}).items():
+                    if pi - 1 < len(c.args):
+                        set_args[fld_] = c.args[pi - 1]
             for fld in ("range_start", "range_end", "residual_predicate"):
                 st = [s_ for b in ft.blocks for s_ in b["stmts"]
                       if any(isinstance(pe, str) and pe.startswith(".%s:" % fld) for pe in s_["dst"][1:])]
                 good = bool(st) and all(
                     any(res in ft.dep_closure(op_local(o)) for o in (s_["rv"].get("o") or []) if isinstance(s_["rv"].get("o"), list) and op_local(o) is not None)
                     for s_ in st)
+                if not st and fld in set_args and op_local(set_args[fld]) is not None:
+                    good = res in ft.dep_closure(op_local(set_args[fld]))
                 # distinct tuple components: the three stores must not read the same component
                 cx.verdict(good, r5, "index-scan:%s" % fld, ft.where(), "stored from the extraction result",
                            "IndexScanOp.%s is not set from extract_index_bounds: the part of the predicate it carries is lost" % fld)
             comps = {}
-            for b in ft.blocks:
-                for s_ in b["stmts"]:
-                    for pe in s_["dst"][1:]:
-                        if isinstance(pe, str) and pe.split(":")[0] in (".range_start", ".range_end", ".residual_predicate"):
-                            o = (s_["rv"].get("o") or [None])[0]
+            stores_ = [(pe.split(":")[0][1:], (s_["rv"].get("o") or [None])[0]) for b in ft.blocks for s_ in b["stmts"] for pe in s_["dst"][1:]
+                       if isinstance(pe, str) and pe.split(":")[0] in (".range_start", ".range_end", ".residual_predicate")]
+            stores_ += [(fld_, o) for fld_, o in set_args.items() if fld_ not in {x for x, _ in stores_}]
+            for fld_, o in stores_:
+                    for pe in ["." + fld_ + ":"]:
+                        if True:
                             l = op_local(o) if o else None
                             # which tuple component does l come from
                             src = None
